@@ -981,8 +981,18 @@ fn threads_check(ctx: &mut Ctx, methods: &[&str]) {
             threads = *ctx.rng.pick(&[4usize, 5, 6, 8, 16]);
             iters = *ctx.rng.pick(&[4u64, 30, 60]);
         }
+        let mut force_default_target = false;
+        if i % 12 == 7 || i % 12 == 11 {
+            // an opponent infoset shared by several nodes right below the root: the frontier walk
+            // itself follows some of them
+            t = hidden_move(&mut ctx.rng);
+            fam = "hidden-move";
+            threads = *ctx.rng.pick(&[2usize, 2, 3]);
+            iters = *ctx.rng.pick(&[2u64, 3, 4, 6]);
+            force_default_target = i % 12 == 7;
+        }
         ctx.stat(&format!("family_{}", fam));
-        let target = if ctx.rng.chance(0.6) { Some(ctx.rng.range(1, 64) as usize) } else { None };
+        let target = if !force_default_target && ctx.rng.chance(0.6) { Some(ctx.rng.range(1, 64) as usize) } else { None };
         let thr = if ctx.rng.chance(0.2) { 0.05 * t.range() } else { 0.0 };
         let seed = ctx.rng.next() >> 12;
         let cfg = Cfg { method: method.into(), params, iters, thr, threads, target, seed };
